@@ -1,9 +1,11 @@
 #!/bin/sh
-# import_seed.sh Cxx : copy a sub-agent's out/<k>/ into /verif/seeded/Cxx/<k>/
+# import_seed.sh Cxx [prefix] : copy a sub-agent's out/<k>/ into /verif/seeded/Cxx/<prefix><k>/
 p=$1
+pre=$2
 for d in /tmp/seed/$p/out/*/; do
   k=$(basename $d)
-  mkdir -p /verif/seeded/$p/$k
-  cp $d/patch.diff $d/demo.py $d/meta.json /verif/seeded/$p/$k/ 2>/dev/null
+  [ -f $d/patch.diff ] || continue
+  mkdir -p /verif/seeded/$p/$pre$k
+  cp $d/patch.diff $d/demo.py $d/meta.json /verif/seeded/$p/$pre$k/ 2>/dev/null
 done
 ls /verif/seeded/$p
